@@ -59,6 +59,13 @@ def eval_prefix(ev, fn, args=None, env=None):
             env[p["d"]] = a
     paths = [({}, env, None)]
     for st in fn.body.get("c", []):
+        if st.get("k") not in ("DeclStmt",) and not (st.get("k") in ("BinaryOperator", "CompoundAssignOperator")):
+            # stop at the first statement that is not a declaration / plain assignment
+            s0 = st
+            while s0 is not None and s0.get("k") in ("ExprWithCleanups", "ImplicitCastExpr", "ParenExpr") and s0.get("c"):
+                s0 = s0["c"][0]
+            if s0 is None or s0.get("k") not in ("BinaryOperator", "CompoundAssignOperator", "CXXOperatorCallExpr"):
+                break
         try:
             new = []
             for assume, e, ret in paths:
